@@ -125,6 +125,13 @@ def gen_json(tier, rng):
                     m = [("error", code)] + ([("error_description", d)] if d is not None or i % 2 else []) + ([("error_uri", u)] if u is not None or i % 3 == 0 else [])
                     body = D.render(D.obj(D.shuffled(m + D.unknown_members(rng, D.ERROR_KNOWN), rng)), rng)
                     out.append((c05.http_line("sync" if i % 2 else "async", kind, False, [400, 401, 403, 500, 503][i % 5], [None, b"application/json", b"text/plain"][i % 3], body), "http/" + kind))
+    from gen import poll as P
+    for term in ("denied", "invalid_grant", "ext", "expired", "invalid_client", "invalid_scope", "pending_upper", "denied202"):
+        for pre in ([], ["pending"], ["slow", "fail"]):
+            for var in ("sync", "async:0", "async:2"):
+                t0 = 1700000000 * P.NS
+                clock = [t0] + [t0 + (j + 1) * P.NS for j in range(len(pre))] + [t0 + 25 * P.NS] + [t0 + 36 * P.NS] * 3
+                out.append((P.line(var, "1", None, None, 30, True, clock, pre + [term]), "device-error-late-clock"))
     from gen import srclit as SL
     for st in SL.statuses():
         for code in CODES + ["custom_code"]:
